@@ -6,9 +6,10 @@ counts, incremental update = Bayes with previous CPD * previous sample size, one
                expected CPD of every node by named assignment; lemmas ResultIsCPD, ClosedForms, RowOrderInvariant, ExpandInvariant,
                CountsCoverData, UpdateRootPooled, PriorVanishes.
   Gen_C06EM  latent-variable models x which initial CPDs are handed over -> exact first EM iteration; lemmas StepIsCPD,
-               ObservedPartIsMLE, InitOfObservedPartIrrelevant, WeightsPartition.
-  Trace_C06  recorded fits on larger random data (5-6 columns, 20-40 rows, card <= 4) validated cell by cell by TLC, and recorded
-               EM likelihood sequences (max_iter = 0..K, same start) checked against the action property ll' >= ll - eps.
+               ObservedPartIsMLE, InitOfObservedPartIrrelevant, WeightsPartition, RowOrderInvariant.
+  Trace_C06  recorded fits / updates on larger random data (4-6 columns, 15-40 rows, card <= 4 (+1 unobserved), <= 3 parents)
+               validated cell by cell by TLC, and recorded EM likelihood sequences (max_iter = 0..K from the same start) checked
+               against the action property ll' >= ll - eps.
 Replay (workers, real pgmpy): every case under permuted rows / columns / parent declaration orders, int / object / categorical
 columns, weighted rows vs repeated rows, n_jobs 1/2, explicit state_names in NON-sorted declared order incl. unobserved states,
 through BayesianNetwork.fit, DAG.fit, estimator.get_parameters, estimator.estimate_cpd, fit_update (after fit, and on hand-built
@@ -177,8 +178,6 @@ EM_CFG = ("INIT Init\nNEXT Next\nINVARIANT WellFormed\nINVARIANT StepIsCPD\nINVA
 
 GEN_CFG = ("INIT Init\nNEXT Next\nINVARIANT WellFormed\nINVARIANT ResultIsCPD\nINVARIANT ClosedForms\nINVARIANT RowOrderInvariant\n"
            "INVARIANT ExpandInvariant\nINVARIANT CountsCoverData\nINVARIANT UpdateRootPooled\nINVARIANT PriorVanishes\nINVARIANT Emit\n")
-GEN_ACTIONS = ["FitMLE", "FitK2", "FitBDeu", "FitDirScalar", "FitDirTable", "FitUpdate"]
-
 
 
 # =========================================================================== worker side (real pgmpy)
@@ -479,7 +478,9 @@ def replay_one(case, inst, seed, hs, p_nj2=0.0, stub=None):
                 raise
             return ncalls[0], [viol(api, "raises", repr(ex)[:300])]
         got = {c.variable: c for c in bn.get_cpds()}
-        return ncalls[0], both(api, got, lists, strict, bn)
+        # after an update only the SET of state names is demanded (the order is that of the previous CPDs by construction of
+        # the library, but the property does not fix it); values are compared by name
+        return ncalls[0], both(api, got, lists, {c: False for c in strict}, bn)
 
     # ------------------------------------------------------------------ one-shot fits
     apis = ["fit", "get_parameters", "estimate_cpd", "dag_fit"]
@@ -503,6 +504,7 @@ def replay_one(case, inst, seed, hs, p_nj2=0.0, stub=None):
     try:
         if how in ("em_fit", "em_get_parameters"):
             feats["ncols"] = len(cols)
+            feats["latents"] = 0
             bn = make_model(conc, inst, edges, rng, K["BN"])
             ekw = {"max_iter": rng.randint(1, 3)}
             if how == "em_fit":
@@ -515,7 +517,6 @@ def replay_one(case, inst, seed, hs, p_nj2=0.0, stub=None):
                 got = {c.variable: c for c in res}
                 bn.add_cpds(*res)
             ncalls[0] += 1
-            feats["latents"] = 0
             return ncalls[0], both(api, got, lists, strict, bn)
         if how == "fit":
             api = API_NAMES[("fit", est)]
@@ -890,6 +891,7 @@ def record_one(spec):
         fam = [v] + parents[v]
         return [{"a": dict(zip(fam, combo)), "p": _frac(rng.randint(lo, hi), den)} for combo in itertools.product(*[dom[t] for t in fam])]
 
+    api = "BayesianNetwork.fit_update" if ev == "update" else "BayesianNetwork.fit"
     try:
         if ev == "fit":
             allone = all(r["w"] == [1, 1] for r in inst["rows"])
@@ -916,7 +918,6 @@ def record_one(spec):
             else:
                 res = K[est](bn, df, **snkw).get_parameters(**kw)
         else:
-            api = "BayesianNetwork.fit_update"
             bn = make_model(conc, inst, edges, rng, K["BN"])
             tr["prev"] = {}
             for v in cols:
@@ -948,7 +949,7 @@ def record_one(spec):
     except Exception as ex:  # noqa
         if os.environ.get("C06_DEBUG"):
             raise
-        return None, [viol(api if "api" in dir() else "record", "raises", repr(ex)[:300], has_isolated_node=bool(isolated))], meta
+        return None, [viol(api, "raises", repr(ex)[:300], has_isolated_node=bool(isolated))], meta
     got, raw = {}, {}
     for c in res:
         v = conc.inv.get(c.variable)
@@ -1111,18 +1112,19 @@ def run(ctx):
         ctx.count(json.dumps([c["inst"], sorted(c["edges"]), c["sn"], c["kind"], c["x"], c["pk"], c["nprev"]]),
                   nontrivial=len(c["edges"]) >= 1, n=0)
     ctx.sample({"kind": "gen", "inst": cases[-1]["inst"], "edges": cases[-1]["edges"], "estimator": cases[-1]["kind"],
-                "expected": cases[-1]["cpds"][0]})
+                "expected_first_cells": {"v": cases[-1]["cpds"][0]["v"], "cells": cases[-1]["cpds"][0]["cells"][:4]}})
     em_insts = em_instances(ctx.thorough)
     em_cases = _em_cases(ctx, em_insts)
     ctx.require_actions(["Step"])
     for c in em_cases:
         ctx.count(json.dumps(["em", c["inst"], sorted(c["given"])]), n=0)
-    ctx.sample({"kind": "em_first_iteration", "inst": em_cases[-1]["inst"], "given": em_cases[-1]["given"], "expected": em_cases[-1]["cpds"][0]})
+    ctx.sample({"kind": "em_first_iteration", "inst": em_cases[-1]["inst"], "given": em_cases[-1]["given"],
+                "expected_first_cells": {"v": em_cases[-1]["cpds"][0]["v"], "cells": em_cases[-1]["cpds"][0]["cells"][:4]}})
 
     hseeds = HSEEDS_T if ctx.thorough else HSEEDS_Q
     nchunk = 2 if ctx.thorough else 3
     K = 6 if ctx.thorough else 3
-    nrec = 400 if ctx.thorough else 64
+    nrec = 600 if ctx.thorough else 64
     jobs = []
     order = list(range(len(cases)))
     random.Random(ctx.seed).shuffle(order)                       # balance the chunks
@@ -1130,12 +1132,13 @@ def run(ctx):
     for hs in hseeds:
         for ch in chunks(shuffled_cases, nchunk):
             jobs.append((hs, {"job": "gen", "insts": insts, "cases": ch, "seed": ctx.seed, "p_nj2": 0.01}))
-    for k, hs in enumerate(hseeds):
-        part = [c for j, c in enumerate(em_cases) if ctx.thorough or len(hseeds) == 1 or j % len(hseeds) == k] if not ctx.thorough else em_cases
-        jobs.append((hs, {"job": "em", "insts": em_insts, "cases": part, "seed": ctx.seed, "K": K}))
+    for hs in hseeds[:2]:
+        jobs.append((hs, {"job": "em", "insts": em_insts, "cases": em_cases, "seed": ctx.seed, "K": K}))
     specs = [{"tid": k + 1, "seed": ctx.seed, "ev": "update" if k % 4 == 0 else "fit"} for k in range(nrec)]
     nrecw = 4 if ctx.thorough else 2
     for k, ch in enumerate(chunks(specs, nrecw)):
+        for sp in ch:
+            sp["hashseed"] = hseeds[k % len(hseeds)]
         jobs.append((hseeds[k % len(hseeds)], {"job": "rec", "specs": ch}))
     results = run_workers(ctx, "c06", "work", jobs)
     traces, metas = _collect(ctx, results)
